@@ -34,6 +34,7 @@ type c18Ev struct {
 	slot int
 	kind byte // C A P R S
 	line []byte
+	at   int // ms since the start at which the harness really applied it (a busy machine may be late)
 }
 
 type c18Scn struct {
@@ -123,8 +124,9 @@ func c18Run(s *c18Scn) {
 	done := make(chan res, 1)
 	var once sync.Once
 	start := time.Now()
-	for _, e := range s.evs {
+	for i, e := range s.evs {
 		c18SleepUntil(start, e.slot)
+		s.evs[i].at = int(time.Since(start) / time.Millisecond)
 		switch e.kind {
 		case 'C':
 			once.Do(func() {
@@ -188,11 +190,11 @@ func genPauseModel(c *ctx) {
 		}
 		scns = append(scns, s)
 	}
-	C := func(slot int) c18Ev { return c18Ev{slot, 'C', nil} }
-	A := func(slot int, l []byte) c18Ev { return c18Ev{slot, 'A', l} }
-	P := func(slot int) c18Ev { return c18Ev{slot, 'P', nil} }
-	R := func(slot int) c18Ev { return c18Ev{slot, 'R', nil} }
-	S := func(slot int) c18Ev { return c18Ev{slot, 'S', nil} }
+	C := func(slot int) c18Ev { return c18Ev{slot: slot, kind: 'C'} }
+	A := func(slot int, l []byte) c18Ev { return c18Ev{slot: slot, kind: 'A', line: l} }
+	P := func(slot int) c18Ev { return c18Ev{slot: slot, kind: 'P'} }
+	R := func(slot int) c18Ev { return c18Ev{slot: slot, kind: 'R'} }
+	S := func(slot int) c18Ev { return c18Ev{slot: slot, kind: 'S'} }
 	protos := []int{3, 4}
 	rep := c.pick(1, 3)
 	for r := 0; r < rep; r++ {
@@ -309,9 +311,24 @@ func genPauseModel(c *ctx) {
 		}
 	}
 
+	// every schedule is run three times: the machine may be busy and a sleep that ends a few ms late can
+	// flip the order of a wake-up and the next scripted event; the model has to explain at least one of the runs
+	// (a real disagreement shows in all three)
+	const attempts = 3
+	alts := make([][]*c18Scn, len(scns))
 	parallelDo(len(scns), len(scns), func(i int) { c18Run(scns[i]) })
+	for a := 1; a < attempts; a++ { // one wave after the other: three times as many goroutines at once would disturb each other
+		wave := make([]*c18Scn, len(scns))
+		for i, s := range scns {
+			cp := *s
+			cp.evs = append([]c18Ev(nil), s.evs...)
+			wave[i] = &cp
+			alts[i] = append(alts[i], &cp)
+		}
+		parallelDo(len(wave), len(wave), func(i int) { c18Run(wave[i]) })
+	}
 
-	for _, s := range scns {
+	for si, s := range scns {
 		c.count("family:" + s.family)
 		c.count("outcome:" + s.class)
 		nontrivial := false
@@ -322,6 +339,9 @@ func genPauseModel(c *ctx) {
 		}
 		if s.gate {
 			measured := fmt.Sprintf("%s:%d:%d", s.class, s.keeps, s.ms)
+			for _, a := range alts[si] {
+				measured += fmt.Sprintf("|%s:%d:%d", a.class, a.keeps, a.ms)
+			}
 			c.emit(nontrivial, "pm_gate", "match", fmt.Sprint(c18Unit), fmt.Sprint(s.proto), fmt.Sprint(s.horizon), s.sched(), measured, fmt.Sprint(c18Tol))
 			c18GateOracles(c, s)
 			continue
@@ -329,9 +349,15 @@ func genPauseModel(c *ctx) {
 		if s.pause {
 			c.count("pause-flag-set")
 		}
-		measured := fmt.Sprintf("%s:%s:%s:%d", s.class, map[bool]string{false: "0", true: "1"}[s.pause], hx(s.payload), s.ms)
-		if s.class != "ok" {
-			measured = fmt.Sprintf("%s:%s:-:%d", s.class, map[bool]string{false: "0", true: "1"}[s.pause], s.ms)
+		obs := func(s *c18Scn) string {
+			if s.class != "ok" {
+				return fmt.Sprintf("%s:%s:-:%d", s.class, map[bool]string{false: "0", true: "1"}[s.pause], s.ms)
+			}
+			return fmt.Sprintf("%s:%s:%s:%d", s.class, map[bool]string{false: "0", true: "1"}[s.pause], hx(s.payload), s.ms)
+		}
+		measured := obs(s)
+		for _, a := range alts[si] {
+			measured += "|" + obs(a)
 		}
 		c.emit(nontrivial, "pm_reader", "match", fmt.Sprint(c18Unit), fmt.Sprint(s.proto), fmt.Sprint(s.timeout), hx([]byte(s.expect)),
 			fmt.Sprint(s.horizon), s.sched(), measured, fmt.Sprint(c18Tol))
@@ -378,7 +404,7 @@ func c18ReaderOracles(c *ctx, s *c18Scn) {
 		pausing := false
 		lastDisturb := -1 << 30
 		for _, e := range s.evs {
-			at := e.slot * c18Unit
+			at := e.at
 			if at >= s.ms {
 				break
 			}
@@ -412,7 +438,7 @@ func c18ReaderOracles(c *ctx, s *c18Scn) {
 			case 'C':
 				called = true
 			}
-			last = e.slot * c18Unit
+			last = e.at
 		}
 		if called && !pausing && s.horizon*c18Unit-last > 3*s.timeout*1000+200 {
 			c.violate("reader-hang:"+s.family, "recvCheckV2 did not return although the transfer was not paused", desc)
@@ -430,7 +456,7 @@ func c18GateOracles(c *ctx, s *c18Scn) {
 	pausing, stopped := false, false
 	lastResume := -1
 	for _, e := range s.evs {
-		at := e.slot * c18Unit
+		at := e.at
 		if s.class != "none" && at >= s.ms {
 			break
 		}
